@@ -6,9 +6,8 @@
     returns exactly what the spec entry (the documented result in plain Z / list terms) returns.
     [run_tab t k dbg a] = the table lookup of Model/Api.v; [wf_args a] = every limb of every argument is a 64-bit word;
     [gtypedb glue_tbl_ty k a] = the side condition of key k (Proofs/GlueTablesP.v): the two halves of a wide value have
-    one limb count (2 keys); "glue.zero_like_wrapping_boxed" is restricted to a one-limb operand because the code does
-    NOT meet its documentation at any other precision (C15_glue_zero_like_wrapping_boxed_refuted); the other 20 keys
-    have no side condition. Statements only; proofs in Proofs/GlueTablesP.v. *)
+    one limb count (2 keys); the other 21 keys have no side condition ("glue.zero_like_wrapping_boxed" needed a one-limb
+    restriction until finding F32 was repaired in /repo 526c7f5). Statements only; proofs in Proofs/GlueTablesP.v. *)
 From CB Require Import Model.Limbs Model.Glue Proofs.TotalityP Proofs.GlueTablesP.
 From Coq Require Import ZArith List String.
 Open Scope Z_scope.
@@ -26,14 +25,12 @@ Theorem C15_glue_tables_key_set :
 Proof. exact glue_key_set. Qed.
 Print Assumptions C15_glue_tables_key_set.
 
-(** Zero::zero_like / Zero::set_zero on Wrapping<BoxedUint> (the trait defaults, `*self = Zero::zero()`): the faithful
-    model returns ONE zero limb for a two-limb operand, the documented result keeps the operand's precision *)
-Theorem C15_glue_zero_like_wrapping_boxed_refuted :
-  exists a, wf_args a /\
-    run_tab ops_glue_model "glue.zero_like_wrapping_boxed" false a = Val [[0]] /\
-    run_tab ops_glue_spec "glue.zero_like_wrapping_boxed" false a = Val [[0; 0]].
-Proof. exact zero_like_wrapping_boxed_refuted. Qed.
-Print Assumptions C15_glue_zero_like_wrapping_boxed_refuted.
+(** Zero::zero_like / Zero::set_zero on Wrapping<BoxedUint> keep the operand's precision (repaired code, finding F32) *)
+Theorem C15_glue_zero_like_wrapping_boxed_keeps_precision :
+  run_tab ops_glue_model "glue.zero_like_wrapping_boxed" false [[5; 6]] = Val [[0; 0]] /\
+  run_tab ops_glue_spec "glue.zero_like_wrapping_boxed" false [[5; 6]] = Val [[0; 0]].
+Proof. exact zero_like_wrapping_boxed_keeps_precision. Qed.
+Print Assumptions C15_glue_zero_like_wrapping_boxed_keeps_precision.
 
 (** non-vacuity: the lookups find functions and return non-trivial values *)
 Example C15_glue_tables_nonvacuous :
